@@ -135,7 +135,8 @@ class Machine:
         x[32] = self.STACK_TOP
         x[30] = 0xFFFF0                     # return address sentinel
         saved = list(x)
-        n = z = c = v = False
+        n = z = False
+        c = v = bool(getattr(self, "init_flags", False))      # flags at entry are whatever the caller left (not part of the ABI)
         mem = self.mem
         pc = self.p.entry[symbol]
         code = self.p.code
